@@ -13,7 +13,7 @@
               alone and the weighted estimate from every vertex to the target, bit for bit
      rline_S  the same certificate check on the routes Dijkstra and A-star returned, over the per-edge costs of the
               specification-side cost model, with the relative tolerance 1e-9 the property grants *)
-From Coq Require Import ZArith QArith List Arith Bool String Floats.
+From Coq Require Import ZArith QArith Qround List Arith Bool String Floats.
 From stdpp Require Import gmap.
 From RC Require Import Base.Show Base.Res Base.Num Model.Units Model.Cost Model.Objective.
 From RC Require Import Model.Search Model.SearchSpec Model.SearchRun.
@@ -96,7 +96,7 @@ Definition check_nopath (g : graph) (d : dir) (ok : nat -> bool) (c : nat -> Q) 
   let a := arcs g d ok c in
   let p := bf (nverts g) a s in
   if negb (feasible a s p) then Some "certificate-rejected"
-  else match pot_at p t with None => None | Some pt => Some ("path-exists:min=" ++ show_Q pt) end.
+  else match pot_at p t with None => None | Some pt => Some ("path-exists:min=" ++ show_micro pt) end.
 
 (* ---------------------------------------------------------------- stream `opt` *)
 Definition okw (w : SR.world FN) (e : nat) : bool := negb (SR.memn e (SR.w_forbid FN w)).
@@ -123,7 +123,8 @@ Definition endpoints (w : SR.world FN) (q : SR.query FN) : option (nat * option 
 Definition inner (o : SR.orient) (r : list nat) : list nat :=
   match o with SR.OVertex => r | SR.OEdge => removelast (tl r) end.
 
-Definition show_route (r : list nat) (c : Q) : string := "Ok r=" ++ show_list show_nat r ++ " c=" ++ show_Q c.
+Definition show_route (it : nat) (r : list nat) (c : Q) : string :=
+  "Ok it=" ++ show_nat it ++ " r=" ++ show_list show_nat r ++ " c=" ++ show_Q c.
 Definition show_labels (l : list (nat * Q)) : string :=
   "Ok labels=" ++ show_list (fun x => show_nat (fst x) ++ ":" ++ show_Q (snd x)) l.
 
@@ -133,7 +134,8 @@ Definition payload (cq : list Q) (q : SR.query FN) (o : SR.outcome FN) : string 
   else match SR.q_target FN q with
        | Some _ =>
            match SR.o_routes FN o with
-           | r :: _ => let es := SR.route_edges FN r in show_route es (cost_of (cq_of cq) (inner (SR.q_orient FN q) es))
+           | r :: _ => let es := SR.route_edges FN r in
+                       show_route (SR.o_iters FN o) es (cost_of (cq_of cq) (inner (SR.q_orient FN q) es))
            | [] => "Ok noroute"
            end
        | None =>
